@@ -328,6 +328,28 @@ func c12Check(c c12Case) vfResult {
 
 func TestVerif_C12(t *testing.T) {
 	defer vfStats.dump()
+	if vfOnlySub("huge") && !vfReplayMode() && vfShard() < 2 {
+		for _, filler := range []string{strings.Repeat("<!-- c -->\n", 9000*(1+10*vfShard())), "<!-- " + strings.Repeat("x", 80000*(1+12*vfShard())) + " -->", strings.Repeat("<link rel=\"a\" href=\"b\">", 4000*(1+10*vfShard()))} {
+			doc := "<!DOCTYPE html><html><head>" + filler + "<meta charset=\"Windows-1251\"><title>t</title></head>"
+			xdoc := "<?xml version=\"1.0\" encoding=\"KOI8-R\"?>" + filler + "<r/>"
+			for _, c := range []c12Case{
+				{Kind: "html", Doc: vfB(doc), Limit: 0, Label: "Windows-1251", Want: "windows-1251", Flags: []string{"label-not-utf8", "long-prologue-token"}},
+				{Kind: "html", Doc: vfB(doc), Limit: uint32(len(doc)), Label: "Windows-1251", Want: "windows-1251", Flags: []string{"label-not-utf8", "long-prologue-token"}},
+				{Kind: "xml", Doc: vfB(xdoc), Limit: 0, Label: "KOI8-R", Want: "koi8-r", Flags: []string{"label-not-utf8"}},
+			} {
+				r := c12Check(c)
+				r.Labels = append(r.Labels, "huge")
+				vfStats.record(r, func() any { return map[string]any{"sub": "huge", "kind": c.Kind, "len": len(c.Doc), "limit": c.Limit} })
+				if r.Err != nil {
+					vfEnumFail(t, "C12", c.Kind, c12Case{Kind: c.Kind, Doc: c.Doc[:200], Label: c.Label, Want: c.Want}, fmt.Errorf("%d-byte document: %v", len(c.Doc), r.Err))
+					return
+				}
+			}
+		}
+	}
+	if t.Failed() {
+		return
+	}
 	if vfOnlySub("html") {
 		vfRun(t, vfSub[c12Case]{Prop: "C12", Name: "html", Checks: vfN(60000, 12000000), Gen: c12GenHTML, Check: c12Check})
 	}
